@@ -421,6 +421,8 @@ def run(ctx):
     ctx.proof_obligations(search=lambda: search_failing(ctx))
     q = ctx.quick()
     run_witnesses(ctx)
+    from .. import marked
+    marked.check_definitions(ctx)
     run_worlds(ctx, 50 if q else 1500, intermediate_private=False)
     run_worlds(ctx, 15 if q else 400, intermediate_private=True)
 
